@@ -1277,7 +1277,11 @@ var sqlClauses = map[string][][]string{
 		{"keyperimpl/gnosis/database", "insertSlotDecryptionSignature", "on conflict do nothing"},
 		{"keyperimpl/shutterservice/database", "insertDecryptionSignature", "on conflict do nothing"},
 	},
+	"C05": {
+		{"keyper/database", "selectDecryptionKeyShares", "from decryption_key_share where eon = $1 and epoch_id = $2"},
+	},
 	"C02": {
+		{"keyperimpl/shutterservice/database", "getUndecryptedFiredTriggers", "from fired_triggers f inner join event_trigger_registered_event e on f.eon = e.eon and f.identity = e.identity where not exists"},
 		{"keyper/database", "getDKGResultForKeyperConfigIndex", "from dkg_result where eon = ( select max ( eon ) from eons where keyper_config_index = $1 )"},
 		{"keyper/database", "getLatestStartedEonByKeyperConfigIndex", "from eons where keyper_config_index = $1 order by eon desc limit 1"},
 	},
